@@ -122,7 +122,8 @@ P = P5("C05", CONFIGS, corpus_cases=corpus_cases, quick_cases=8, thorough_cases=
              "exactly once with every directory before its contents); everything is also compared with the model"),
        assumptions=[])
 generate, corpus, known = P.generate, P.corpus, P.known
-ASSUMPTIONS, BUILDS = P.ASSUMPTIONS, P.BUILDS
+ASSUMPTIONS = P.ASSUMPTIONS
+BUILDS = [False, True]     # the EmbeddedFS pass runs the debug and the release harness: both are rebuilt on every run
 RULE = P.RULE + ("; EmbeddedFS: every observer on every path of the embedded fixture's universe (files, implied directories sharing "
                  "ancestors at depth 2-4, absent siblings), listings and walks, against the model and against a PhysicalFS on the same folder")
 
